@@ -139,12 +139,17 @@ def main(argv=None):
     ndet_nt = sum(r["nontrivial"] for r in detres)
     # (c) stochastic paths keep the total exactly
     sseeds = ["SIR", "CHAIN", "SIRS2"]
-    sdefs, _ = fam.gather_defs(sseeds, 1 if quick else 2, only_T=True)
+    sdefs, _ = fam.gather_defs(sseeds, 1, only_T=True)
     seed_defs, _ = fam.gather_defs(sseeds, 0, only_T=True)
     cfgs = fam.l2_configs(sdefs, run.tier)
     extra = fam.l2_configs(seed_defs, run.tier, modes=fam.MODES[:3])
     jobs = [(c, 2 if quick else 3, 20000 if quick else 200000, "c10") for c in extra]
-    jobs += [(c, 1 if quick else 2, 6000 if quick else 60000, "c10") for c in cfgs]
+    jobs += [(c, 1, 6000 if quick else 20000, "c10") for c in cfgs]
+    if not quick:
+        # deviation bound 2 on the same definitions with the quick set of initial states and horizons
+        c2 = fam.l2_configs(sdefs, "quick")
+        jobs += [(c, 2, 60000, "c10") for c in c2]
+        cfgs = cfgs + c2
     cfgs = extra + cfgs
     res = pool.pmap(stoch.explore_config, jobs, chunksize=1)
     ex, steps, capped, nout = fam.summarize_l2(run, res, cfgs)
